@@ -54,6 +54,17 @@ Malformed(x) ==
      \/ y.t = "list" /\ IsSome(y.elems) /\
           \E j \in DOMAIN Get(y.elems) : IsEll(Get(y.elems)[j]) /\ 1 < j /\ j < Len(Get(y.elems))
 
+\* C09's open finding seen through fake(): a negated class that excludes the generator's whole alphabet
+RECURSIVE RSubF(_)
+RSubF(x) == {x} \cup CASE x.r \in {"group", "rep", "uns"} -> RSubF(x.body)
+                       [] x.r = "alt" -> UNION {RSubF(x.alts[i]) : i \in DOMAIN x.alts}
+                       [] x.r = "seq" -> UNION {RSubF(x.parts[i]) : i \in DOMAIN x.parts}
+                       [] OTHER -> {}
+SigEmptyNegClass(x) ==
+  x.t = "str" /\ IsNone(x.value) /\ IsSome(x.pattern) /\ Get(x.pattern).k = "pat" /\
+  \E y \in RSubF(Get(x.pattern).rx) :
+     y.r = "class" /\ y.neg /\ NotInCandidates(y.items) = <<>> /\ ~NotInUnknownCat(y.items)
+
 \* an escaping exception is the recorded float-rounding finding or nothing
 FloatRoundKnown(x) == \E y \in SubSchemas(x) : y.t = "float" /\ IsSome(y.value) /\ IsSome(y.precision)
 
@@ -65,6 +76,7 @@ KnownGen(x) ==
      \/ SigEmptyAlphabet(y)
      \/ SigFloatGrid(y) /\ IsSome(y.min) /\ IsSome(y.max)      \* F5: no grid point in [min, max]
      \/ SigContradictoryStr(y)
+     \/ SigEmptyNegClass(y)
 
 
 \* the open generation findings, as pure signatures (independent of the DEV_ switches)
@@ -73,5 +85,6 @@ KnownGenSig(x) ==
      \/ SigEmptyAlphabet(y)
      \/ SigFloatGrid(y) /\ IsSome(y.min) /\ IsSome(y.max)
      \/ SigContradictoryStr(y)
+     \/ SigEmptyNegClass(y)
 
 =============================================================================
